@@ -4,31 +4,31 @@ import json, subprocess
 
 CLAIMED = {
  "C01": dict(
-  text="Proof of every per-entry decision of the transfer and of every argument handed to the kernel, for all stats, modes and paths: diff step (pathChange via the ComparePath contract, merge-loop step obligations), DiskWriter.HandleChange (Lstat-only inspection, creation arm by mode, metadata applied after creation and before rename, RemoveAll iff dir<->non-dir switch, dirModTimes recorded), rewriteMetadata order (xattrs, owner, mode never on symlinks, times last, no-follow), exact nanosecond split in chtimes, mtime re-applied after the asynchronous content write, device number round trip (bit-vector lemma over the real unix.Mkdev body) and device type bits. Not decided: that these per-entry facts compose to tree equality over a real disk and under concurrency (explicit assumption).",
+  text="Proof of every per-entry decision of the transfer and of every argument handed to the kernel, for all stats, modes and paths: diff step (pathChange via the ComparePath contract, merge-loop step obligations), DiskWriter.HandleChange (Lstat-only inspection, creation arm by mode, metadata applied after creation and before rename, RemoveAll iff dir<->non-dir switch, dirModTimes recorded), rewriteMetadata order (xattrs, owner, mode never on symlinks, times last, no-follow), exact nanosecond split in chtimes, mtime re-applied after the asynchronous content write, device number round trip (bit-vector lemma over the real unix.Mkdev body) and device type bits. Not decided: that these per-entry facts compose to tree equality over a real disk and under concurrency (explicit assumption). Round 3: the check runs every contract of the root package and of types (DESIGN 15.1); destination walked unless merging and walked whole (getWalkerFn, Walk); walk entries carry a stat by a proved channel invariant; the filter's copy of the stat is what is written; directory times restored also for a symlinked destination (F35, repaired); hard link source not a leftover symlink (F29, repaired). Known: F17 (capabilities), F36 (metadata differ keeps a same-size same-mtime file, by design).",
   note="Assumed contracts (effects) on os.*/unix.*/sysx.* calls; user callbacks do not modify fsutil objects; channel/goroutine semantics not modelled; trusted generated Stat.Clone; signed arithmetic mathematical where safety +overflow is not set.",
   design="DESIGN.md section 3 C01"),
  "C02": dict(
-  text="Proof: compareStat/sameFile equal the identity tuple of the statement for all stat pairs (every field; size and mtime exactly for non-directories), DiffNone disables it; the merge loop forwards a change for a common path only if !same; content is requested only on the regular non-link arm of HandleChange, at most once per call; asyncDataFunc sends exactly one REQ with the announced id and consumes the path; fileCanRequestData pinned to the numeric type mask (bit-vector). Whole-merge minimality over two sorted sequences is a bounded stand-in (not counted as proved).",
-  note="Assumed: nextPath/channel semantics (trusted contract), os effects, callbacks; destination and source stats come from the same constructor (call-graph fact).",
+  text="Proof: compareStat/sameFile equal the identity tuple of the statement for all stat pairs (every field; size and mtime exactly for non-directories), DiffNone disables it; the merge loop forwards a change for a common path only if !same; content is requested only on the regular non-link arm of HandleChange, at most once per call; asyncDataFunc sends exactly one REQ with the announced id and consumes the path; fileCanRequestData pinned to the numeric type mask (bit-vector). Whole-merge minimality over two sorted sequences is a bounded stand-in (not counted as proved). Round 3: nextPath is proved from a channel invariant (no trusted contract left in the root package); destination compared unless merging; SubDirFS keeps a re-rooted symlink's size consistent (F24, repaired: such a link was re-created on every re-sync).",
+  note="Assumed: the channel invariant of walk entries rests on a module-wide syntactic scan (sends only in functions under contract, entry fields written only at construction) and on a precondition of the destination walker callback; os effects, callbacks; destination and source stats come from the same constructor (call-graph fact).",
   design="DESIGN.md section 3 C02"),
  "C03": dict(
-  text="Proof: validator soundness (accept ==> clean, relative, not '.', not '..', not '../…', parent is an open directory, base name above the last child, stack discipline and representation invariant), hard-link source must have been seen, and in the receive loop an entry is forwarded only after both validators accepted it in the same iteration; DATA for an unregistered id is an error before any write; the disk writer inspects with Lstat only and picks the directory arm before the symlink arm.",
+  text="Proof: validator soundness (accept ==> clean, relative, not '.', not '..', not '../…', parent is an open directory, base name above the last child, stack discipline and representation invariant), hard-link source must have been seen, and in the receive loop an entry is forwarded only after both validators accepted it in the same iteration; DATA for an unregistered id is an error before any write; the disk writer inspects with Lstat only and picks the directory arm before the symlink arm. Round 3: a hard link whose source in the destination is a symlink is rejected before os.Link (F29, repaired: the metadata of the new name was applied through a link left in the destination when the link source had been filtered out); Lstat discipline stated per call site.",
   note="Assumed: audited axioms-free uninterpreted filepath.Clean/Dir/Base/Join/IsAbs (only equalities of identical applications are used); lexical containment of Join(dest,p) for accepted p is an assumption; os effects; no concurrency.",
   design="DESIGN.md section 3 C03"),
  "C05": dict(
-  text="Proof: exactly one notification per applied add/modify (non-content entries: after every filesystem effect of the call; content entries: from the asynchronous job after the content callback), delete notified after RemoveAll, nothing notified when a filter rejects, digest header = caller's hash of the stat as sent (never the filtered copy), digest finalised before the writer is closed and before the notification; delete suppression prefix always ends with the separator. Found and repaired: directory-over-directory metadata updates were not notified.",
+  text="Proof: exactly one notification per applied add/modify (non-content entries: after every filesystem effect of the call; content entries: from the asynchronous job after the content callback), delete notified after RemoveAll, nothing notified when a filter rejects, digest header = caller's hash of the stat as sent (never the filtered copy), digest finalised before the writer is closed and before the notification; delete suppression prefix always ends with the separator. Found and repaired: directory-over-directory metadata updates were not notified. Round 3: pending ancestors of a metadata-only receive are flushed when the selected entry is forwarded (each ancestor once); the digest is seeded with the stat as sent, the disk gets the filter's copy.",
   note="Assumed: hasher/notify callbacks, io.MultiWriter, os effects; 'once per path across the whole transfer' needs the merge induction (bounded stand-in); async completion order not modelled.",
   design="DESIGN.md section 3 C05"),
  "C06": dict(
-  text="Proof of the sender's per-call protocol obligations for all inputs: one STAT per walk callback with the id counter advanced for every STAT, a regular file registered under its id before the STAT leaves, end marker after a complete walk, single-use ids (queue), one DATA per non-empty chunk and none for empty ones, terminator as the last packet of sendFile, lock bracket around every send, FIN echoed as the last message of a successful request loop, progress accumulated under its lock; the goroutine structure of a send as a sequential contract (exactly six goroutines: walker, four workers, request loop; exactly one final progress call with last == true, made after everything else; a failed walk is reported with an ERR packet).",
+  text="Proof of the sender's per-call protocol obligations for all inputs: one STAT per walk callback with the id counter advanced for every STAT, a regular file registered under its id before the STAT leaves, end marker after a complete walk, single-use ids (queue), one DATA per non-empty chunk and none for empty ones, terminator as the last packet of sendFile, lock bracket around every send, FIN echoed as the last message of a successful request loop, progress accumulated under its lock; the goroutine structure of a send as a sequential contract (exactly six goroutines: walker, four workers, request loop; exactly one final progress call with last == true, made after everything else; a failed walk is reported with an ERR packet). Round 3: one incremental match per path component in Open (matchesLikeWalk); composite views open the rest of the path in the mount named by the exact first component.",
   note="Not decided: request order/timing/concurrency, the worker pool, errgroup. Assumed: Stream/FS interface contracts (effects), io.CopyBuffer calls only Write/Read, sync.Pool holds *[]byte.",
   design="DESIGN.md section 3 C06"),
  "C07": dict(
-  text="Proof of the receiver's per-call protocol obligations: loop invariant id counter == number of STATs received (ghost), an id is registered under the zero-based position of its STAT, pipe registered before the REQ is sent, each path requested at most once with its announced id, DATA routed to the registered pipe (Close iff empty payload) before the next receive, nil result only after io.EOF; the diff goroutine sends FIN only after the two-way diff and then the disk writer's wait both succeeded (ghost markers) and reports a failure with ERR; exactly two goroutines; the listing file is written only for a metadata-only transfer, after both goroutines ended, to dest/.fsutil-metadata after removing a stale entry.",
+  text="Proof of the receiver's per-call protocol obligations: loop invariant id counter == number of STATs received (ghost), an id is registered under the zero-based position of its STAT, pipe registered before the REQ is sent, each path requested at most once with its announced id, DATA routed to the registered pipe (Close iff empty payload) before the next receive, nil result only after io.EOF; the diff goroutine sends FIN only after the two-way diff and then the disk writer's wait both succeeded (ghost markers) and reports a failure with ERR; exactly two goroutines; the listing file is written only for a metadata-only transfer, after both goroutines ended, to dest/.fsutil-metadata after removing a stale entry. Round 3: all contracts of the root package and types are run; the destination walker is wired unless merging; stats compared field by field (compareStat) also under this property.",
   note="Not decided: interleavings of ids and STAT/DATA races, 'all content on disk before FIN' beyond sequential order. Assumed: Stream contract, channel semantics, trusted generated ResetVT/SizeVT.",
   design="DESIGN.md section 3 C07"),
  "C09": dict(
-  text="Proof: ComparePath equals the separator-lowest first-difference order (strict order lemmas), the walk callback never reports the root and reports every other entry at most once (exactly once unless cancelled) under its root-relative path, the stat constructor records path/mode-without-socket-bit/mtime/size/owner/link target as given by lstat/readlink, the inode map makes the first name of an inode the file and every later name a link to that first name (map otherwise unchanged), device numbers via major/minor, sub-root prefixing of forwarded paths, and the sub-root sort reads the slice it sorts. Not decided: completeness/stability of the kernel listing and that filepath.WalkDir visits name-sorted (assumed).",
+  text="Proof: ComparePath equals the separator-lowest first-difference order (strict order lemmas), the walk callback never reports the root and reports every other entry at most once (exactly once unless cancelled) under its root-relative path, the stat constructor records path/mode-without-socket-bit/mtime/size/owner/link target as given by lstat/readlink, the inode map makes the first name of an inode the file and every later name a link to that first name (map otherwise unchanged), device numbers via major/minor, sub-root prefixing of forwarded paths, and the sub-root sort reads the slice it sorts. Not decided: completeness/stability of the kernel listing and that filepath.WalkDir visits name-sorted (assumed). Round 3: xattr names are listed exactly once for the entry itself whatever its type; a re-rooted link's size follows its target (F24).",
   note="Assumed: filepath.WalkDir pre-order over sorted ReadDir, lstat/readlink/xattr effects, filepath.Rel uninterpreted, sort.Slice permutes only its argument.",
   design="DESIGN.md section 3 C09"),
  "C10": dict(
@@ -38,43 +38,43 @@ CLAIMED = {
   note="Known finding (dependency): the walk equals the incremental reference everywhere but differs from the naive one for lists like [a/b, !a]. Bounded: small trees, short pattern lists.",
   design="DESIGN.md section 3 C10"),
  "C11": dict(
-  text="Proof: filterFS.Open decides visibility through the same incremental matcher entry point as Walk (found by the contract, repaired), an open failure yields only the terminator (sendFile), the hard-link re-canonicalisation forwards a link whose source was not seen as a plain file and records it as representative, later members name a recorded representative, Send installs the filter; the receiver's link validator accepts exactly links to earlier non-links. Walk/Open agreement over pattern lists is additionally checked by a bounded stand-in (not counted as proved).",
+  text="Proof: filterFS.Open decides visibility through the same incremental matcher entry point as Walk (found by the contract, repaired), an open failure yields only the terminator (sendFile), the hard-link re-canonicalisation forwards a link whose source was not seen as a plain file and records it as representative, later members name a recorded representative, Send installs the filter; the receiver's link validator accepts exactly links to earlier non-links. Walk/Open agreement over pattern lists is additionally checked by a bounded stand-in (not counted as proved). Round 3: every entry that goes through the hard-link bookkeeping is remembered under its own path; include patterns reach the matcher in the caller's order followed by the followed locations. Known: F22 (Open ignores the map function), F28 (map function excluding a directory but keeping its children: stream not parent-closed).",
   note="Assumed: matcher results uninterpreted; FS interface contracts; parent-closure of filtered streams rests on the C10 stand-in.",
   design="DESIGN.md section 3 C11"),
  "C12": dict(
-  text="Proof (all inputs, all iterations): ComparePath is proved equal to the first-difference path order with the separator lowest (three postconditions + termination + index safety + no overflow), the order lemmas (irreflexive, asymmetric, transitive) are discharged over the spec and totality follows as a corollary of the verified, terminating ComparePath; per call of the validator both directions are proved: accept implies lexically contained + directory open on the stack + base name above the last child, and conversely such a path is accepted (the stack of open directories is proved strictly ascending, so the binary search finds exactly the parent entry), plus the stack discipline and representation invariant. That the stack is the right summary of the whole accepted history (the statement's 'parent accepted earlier') is a whole-sequence argument; it is additionally exercised by a bounded stand-in, labelled so in the evidence.",
+  text="Proof (all inputs, all iterations): ComparePath is proved equal to the first-difference path order with the separator lowest (three postconditions + termination + index safety + no overflow), the order lemmas (irreflexive, asymmetric, transitive) are discharged over the spec and totality follows as a corollary of the verified, terminating ComparePath; per call of the validator both directions are proved: accept implies lexically contained + directory open on the stack + base name above the last child, and conversely such a path is accepted (the stack of open directories is proved strictly ascending, so the binary search finds exactly the parent entry), plus the stack discipline and representation invariant. That the stack is the right summary of the whole accepted history (the statement's 'parent accepted earlier') is a whole-sequence argument; it is additionally exercised by a bounded stand-in, labelled so in the evidence. Round 3: mode predicates of StatInfo/types.Stat are checked under this property too.",
   note="Assumes: govc's SSA->SMT translation; string extensionality axiom; uninterpreted filepath.Clean/Dir/Base/Join/IsAbs with three audited axioms on clean relative paths (p == Join(Dir,Base), p inside Dir(p), non-empty), bytewise string order; sort.Search contract (derived from its loop invariant); os.FileInfo methods pure.",
   design="DESIGN.md section 3 C12"),
  "C13": dict(
-  text="Proof of the per-entry copy decisions for all stats and option values: device/fifo/socket nodes keep permission and exact type bits and the device number (bit-vector; the block->char defect was found and repaired), owner before mode before times with no-follow variants, chmod never on a symlink, requested symbolic mode = Set.Apply(source mode) and octal mode mapping incl. setuid/setgid/sticky (bit-vector), source atime/mtime otherwise, metadata before xattrs, symlinks copied via Readlink+Symlink, first name of an inode is the file and later names link to it, one notification per non-directory with the destination path, MkdirAll: existing directories untouched, created ones owner-then-time. Not decided: whole-tree fidelity (composition over ReadDir recursion and the kernel).",
+  text="Proof of the per-entry copy decisions for all stats and option values: device/fifo/socket nodes keep permission and exact type bits and the device number (bit-vector; the block->char defect was found and repaired), owner before mode before times with no-follow variants, chmod never on a symlink, requested symbolic mode = Set.Apply(source mode) and octal mode mapping incl. setuid/setgid/sticky (bit-vector), source atime/mtime otherwise, metadata before xattrs, symlinks copied via Readlink+Symlink, first name of an inode is the file and later names link to it, one notification per non-directory with the destination path, MkdirAll: existing directories untouched, created ones owner-then-time. Not decided: whole-tree fidelity (composition over ReadDir recursion and the kernel). Round 3: the owner the chowner answers is applied whenever it answers one; every listed xattr is attempted (F23, repaired: a tolerated failure dropped the attributes listed after it); options set exactly their field. Known: F34 (created target of a directory-contents copy gets no source metadata).",
   note="Assumed: os/unix/sysx effect contracts, mode.Set.Apply uninterpreted, Chowner callback, io.CopyBuffer; copyFileContent termination not claimed; slices.Reverse and patternmatcher.New by assumed contract.",
   design="DESIGN.md section 3 C13"),
  "C14": dict(
-  text="Proof of the no-follow discipline per function: source and target are inspected with Lstat only (Stat only for directories already validated as parents and for the root-resolved destination), owner/time/xattr calls are the no-follow variants, chmod is skipped for symlinks, a non-directory target is removed (no-follow) or reported, pending parents are validated before an always-replace removal, destination names are root-clamped, every path handed to the copier derives from RootPath/rootPath. Two genuine escapes were found this way and repaired. The statement 'nothing outside the root' then rests on the assumed contract of continuity/fs.RootPath and kernel path resolution.",
+  text="Proof of the no-follow discipline per function: source and target are inspected with Lstat only (Stat only for directories already validated as parents and for the root-resolved destination), owner/time/xattr calls are the no-follow variants, chmod is skipped for symlinks, a non-directory target is removed (no-follow) or reported, pending parents are validated before an always-replace removal, destination names are root-clamped, every path handed to the copier derives from RootPath/rootPath. Two genuine escapes were found this way and repaired. The statement 'nothing outside the root' then rests on the assumed contract of continuity/fs.RootPath and kernel path resolution. Round 3: known finding F32 (a remembered hard-link source path resolved through a symlink that a later wildcard match created: destination entry linked to a file outside both roots).",
   note="Assumed: fs.RootPath returns a path inside root without symlink components (dependency), kernel path resolution for no-follow calls, no concurrent mutation.",
   design="DESIGN.md section 3 C14"),
  "C15": dict(
-  text="Proof of the overlay decisions: destination selection rows of prepareTargetDir (with the root-clamped source name), trailing-separator handling in Copy (ensure_dst), copyDirectoryOnly (absent->Mkdir, dir->kept, other->error and nothing touched), ensureEmptyFileTarget (absent->nothing, dir->error untouched, other->Remove), removeTargetIfNeeded truth table, order parents->replace->empty target->create. Not decided: idempotence of a whole copy and wildcard union (whole-tree statements).",
+  text="Proof of the overlay decisions: destination selection rows of prepareTargetDir (with the root-clamped source name), trailing-separator handling in Copy (ensure_dst), copyDirectoryOnly (absent->Mkdir, dir->kept, other->error and nothing touched), ensureEmptyFileTarget (absent->nothing, dir->error untouched, other->Remove), removeTargetIfNeeded truth table, order parents->replace->empty target->create. Not decided: idempotence of a whole copy and wildcard union (whole-tree statements). Round 3: the rows of prepareTargetDir rewritten from the statement (F26, repaired: a directory copied onto an existing file aimed below it and always-replace could not win); a remembered link source equal to the target is copied (F33, repaired); wildcard base walked literally, every entry offered to the pattern.",
   note="Assumed: os effect contracts; uninterpreted filepath.Join/Base/Dir/Split/Clean; filepath.Walk invokes only its callback.",
   design="DESIGN.md section 3 C15"),
  "C16": dict(
-  text="Proof of the selection bookkeeping: include = matchesInclude && !matchesExclude (root always), nothing is created for an unselected non-directory, a directory is created eagerly only if selected itself, pending ancestors are created exactly when a selected descendant arrives, each from its own source directory's mode/owner/xattrs, the ancestor stack is restored on every return path. Equality with the reference filter (which depends on the regexp matcher of moby/patternmatcher) is not decidable by contracts here and is left to a bounded stand-in.",
+  text="Proof of the selection bookkeeping: include = matchesInclude && !matchesExclude (root always), nothing is created for an unselected non-directory, a directory is created eagerly only if selected itself, pending ancestors are created exactly when a selected descendant arrives, each from its own source directory's mode/owner/xattrs, the ancestor stack is restored on every return path. Equality with the reference filter (which depends on the regexp matcher of moby/patternmatcher) is not decidable by contracts here and is left to a bounded stand-in. Round 3: both pattern lists are evaluated for every entry below the root, also for one the include patterns reject (the matchers are incremental); pattern options append in order.",
   note="Assumed: matcher results uninterpreted; os effects.",
   design="DESIGN.md section 3 C16"),
  "C17": dict(
-  text="Proof of the per-entry header construction of the tar export for all stats: member name in slash form with a trailing slash for directories, uid/gid/device numbers/link name taken from the view's stat, link members (symlink and hard link) with size 0 and the right type flag, the payload opened after the header and only for non-empty regular non-link members, the archive closed last after a complete walk; the stat constructor (mkstat/setUnixOpt) contracts are part of the check. Not decided: that archive/tar produces a well-formed archive that extracts to the view (dependency semantics, assumed).",
+  text="Proof of the per-entry header construction of the tar export for all stats: member name in slash form with a trailing slash for directories, uid/gid/device numbers/link name taken from the view's stat, link members (symlink and hard link) with size 0 and the right type flag, the payload opened after the header and only for non-empty regular non-link members, the archive closed last after a complete walk; the stat constructor (mkstat/setUnixOpt) contracts are part of the check. Not decided: that archive/tar produces a well-formed archive that extracts to the view (dependency semantics, assumed). Round 3: known finding F30 (the stat, and with it the first name of a hard-link group, is fixed before the map function is asked: a tar export links to a member that is not in the archive).",
   note="Assumed: archive/tar FileInfoHeader/Writer contracts, FS interface, xattr PAX records not tracked (map iteration).",
   design="DESIGN.md section 3 C17"),
  "C18": dict(
-  text="Proof: dedupePaths returns a list in which no element lies inside another whenever its input is strictly ascending in path order (loop invariants + proved lemmas inside_less, contiguity, inside_hasprefix over the spec), a root entry collapses the list; the comparator FollowLinks sorts with is the protocol path order (found bytewise, repaired), and FollowLinks establishes that precondition: the keys collected from the resolved set are pairwise distinct (ghost visited set of the map range), sort.Slice with a comparator proved to be a strict weak order yields an ascending permutation, distinct + total order gives strictly ascending, so FollowLinks' result is ascending and prefix-free for every tree; the resolver's termination measure is a contract: a link path is added to the finite resolved set as a NEW element before any recursive call and an already resolved path returns at once, the set only grows. End-to-end closure/termination over link graphs is a bounded stand-in (not counted as proved) with two known findings (lexical '..' after a link; over-eager cycle guard).",
+  text="Proof: dedupePaths returns a list in which no element lies inside another whenever its input is strictly ascending in path order (loop invariants + proved lemmas inside_less, contiguity, inside_hasprefix over the spec), a root entry collapses the list; the comparator FollowLinks sorts with is the protocol path order (found bytewise, repaired), and FollowLinks establishes that precondition: the keys collected from the resolved set are pairwise distinct (ghost visited set of the map range), sort.Slice with a comparator proved to be a strict weak order yields an ascending permutation, distinct + total order gives strictly ascending, so FollowLinks' result is ascending and prefix-free for every tree; the resolver's termination measure is a contract: a link path is added to the finite resolved set as a NEW element before any recursive call and an already resolved path returns at once, the set only grows. End-to-end closure/termination over link graphs is a bounded stand-in (not counted as proved) with two known findings (lexical '..' after a link; over-eager cycle guard). Round 3: every directory entry is offered to a wildcard and every match resolved on its own; dedupePaths is an order-preserving subsequence; pruning flags computed with every pattern character incl. the escape. Known: F7, F8, F31 (followed locations used as unescaped patterns; middle wildcards not followed).",
   note="Assumed: sort.Slice returns a permutation ordered by a less function that is a strict weak order (the strict-weak-order conditions are proof obligations); a map range yields each key at most once; FS.Walk contract (invokes its callback); filepath functions uninterpreted.",
   design="DESIGN.md section 3 C18"),
  "C19": dict(
-  text="Proof: buffer.alloc hands out the next n bytes of the concatenation view (region directly behind the last one or a fresh chunk at the end; earlier chunks keep position, backing array and length; index/slice safety; no overflow); in the receive loop every non-listing-name STAT is framed as LE32(size)+record of exactly that size, the listing's own name is skipped but still counted in the id sequence (found and repaired), ids are registered only for selected files; each record is exactly SizeVT bytes (encoder proved against the size specification); the pending unselected directories form a chain of direct parents (so only ancestors are replayed); the listing is written chunk by chunk in order to dest/.fsutil-metadata after both goroutines ended and a stale entry was removed.",
+  text="Proof: buffer.alloc hands out the next n bytes of the concatenation view (region directly behind the last one or a fresh chunk at the end; earlier chunks keep position, backing array and length; index/slice safety; no overflow); in the receive loop every non-listing-name STAT is framed as LE32(size)+record of exactly that size, the listing's own name is skipped but still counted in the id sequence (found and repaired), ids are registered only for selected files; each record is exactly SizeVT bytes (encoder proved against the size specification); the pending unselected directories form a chain of direct parents (so only ancestors are replayed); the listing is written chunk by chunk in order to dest/.fsutil-metadata after both goroutines ended and a stale entry was removed. Round 3: known finding F27 (a source directory, or the target of a hard link, named like the listing file fails the transfer).",
   note="Assumed: record bytes are the protobuf encoding of the stat (content of varints/tags not decided); selector callback.",
   design="DESIGN.md section 3 C19"),
  "C20": dict(
-  text="Proof with exact bit-vector integers and loop invariants re-inferred on every run (Houdini): the hand-optimised decoders (*Packet).UnmarshalVT and (*Stat).UnmarshalVT never index, slice or allocate out of range for any byte string and any prior message (all 40+ loops), assign slice fields only their old or a fresh backing array (never the input buffer), the exported Unmarshal uses the copying decoder; protoStream.SendMsg writes one frame of 4+Size() bytes with a big-endian prefix (the message type must implement the marshaling interface - found missing, repaired), RecvMsg reads exactly one frame into a buffer of exactly the declared length, leaves the message untouched for an empty frame and fails only when reading or decoding fails. Encoder side: SizeVT of Stat and Packet proved equal to size specification functions (xattrs as a ghost sum over the map range), MarshalToSizedBufferVT of both proved to stay inside a buffer of that size and to report exactly that size, so SendMsg always writes exactly one frame of 4 + size bytes and MarshalTo cannot fail for a Packet. Not decided: that the bytes are the protobuf encoding (varint content, tag numbers), Unmarshal(Marshal(x)) == x, equality with the reflection-based protobuf runtime (out of reach, stated).",
+  text="Proof with exact bit-vector integers and loop invariants re-inferred on every run (Houdini): the hand-optimised decoders (*Packet).UnmarshalVT and (*Stat).UnmarshalVT never index, slice or allocate out of range for any byte string and any prior message (all 40+ loops), assign slice fields only their old or a fresh backing array (never the input buffer), the exported Unmarshal uses the copying decoder; protoStream.SendMsg writes one frame of 4+Size() bytes with a big-endian prefix (the message type must implement the marshaling interface - found missing, repaired), RecvMsg reads exactly one frame into a buffer of exactly the declared length, leaves the message untouched for an empty frame and fails only when reading or decoding fails. Encoder side: SizeVT of Stat and Packet proved equal to size specification functions (xattrs as a ghost sum over the map range), MarshalToSizedBufferVT of both proved to stay inside a buffer of that size and to report exactly that size, so SendMsg always writes exactly one frame of 4 + size bytes and MarshalTo cannot fail for a Packet. Not decided: that the bytes are the protobuf encoding (varint content, tag numbers), Unmarshal(Marshal(x)) == x, equality with the reflection-based protobuf runtime (out of reach, stated). Round 3: allocation bounds as obligations - RecvMsg allocates nothing sized by the unread length prefix (F25, repaired: 4 bytes reserved up to 4 GiB), Stat.UnmarshalVT nothing larger than the input.",
   note="Assumed: protohelpers.Skip results unconstrained (callers re-check), SizeOfVarint in 1..10 and EncodeVarint's offset arithmetic (audited), dispatch of the framing layer's interface calls to (*Packet).Size/MarshalTo, Packet.Reset trusted (generated), io.ReadFull/Writer contracts, sync.Pool holds *[]byte.",
   design="DESIGN.md section 3 C20"),
 }
